@@ -59,6 +59,22 @@ fn compile_in_list__delegates_to_context_matcher() {
     unsafe {
         PROBE = Some(LhsValue::Int(x));
     }
+    if cfg!(test) {
+        // concrete playback: the same comparison through the real registry, compiler and context
+        let mut b = crate::scheme::SchemeBuilder::new();
+        b.add_optional_field("f", Type::Int).unwrap();
+        b.add_list(Type::Ip, Def(id0, b'0')).unwrap();
+        b.add_list(Type::Int, Def(id1, b'1')).unwrap();
+        let s = b.build();
+        let want = if which { use_name1 && x == id1 } else { !use_name1 && x == id0 };
+        let mk = |s: &Scheme| ComparisonOpExpr::InList {
+            name: ListName::from(String::from(if use_name1 { "n1" } else { "n0" })),
+            list: s.get_list(&(if which { Type::Int } else { Type::Ip })).unwrap().to_owned(),
+        };
+        assert!(replay_on(s.clone(), mk(&s), Some(LhsValue::Int(x))) == want, "REPLAY on real code: wrong answer for a present value");
+        assert!(!replay_on(s.clone(), mk(&s), None), "REPLAY on real code: absent x must be false");
+        return;
+    }
     let name = ListName::from(String::from(if use_name1 { "n1" } else { "n0" }));
     let l = list(&scheme, if which { 1 } else { 0 });
     let compiled = extracted::arm_in_list(field_lhs(&scheme, 0), &mut NoCompiler, kani::any(), name, l);
